@@ -278,3 +278,51 @@ lu_solve = Fn(LUS + 'lu_solve', ret='x', level='L1', valid='lu@.len() == b@.len(
                      ('\n                x\n', 'replace', '\n proof { assert(lu_solved(lu@, n as int, pivots@, b@, x@)); }\n x\n')])
 UNITS.append(Unit('C11_lu_solve', ('C11', 'C01'), [lu_solve], types=core.TYPES, type_spec=core.TYPE_SPEC, spec=SPEC + LUS_SPEC, nra=NRA, preludes=PRE, broadcast=BC, level='L1', rlimit=100,
                   notes='lu_solve: the permuted right-hand side is read through the pivots, the in-place column sweeps solve (unit lower) y = P b and then U x = y row by row; size mismatch rejected'))
+
+# ---------------------------------------------------------------- Matrix-level lu_solve / solve for a Vector right-hand side (derived textually from the slice-level proof)
+import re as _re
+from contracts.core import MAT as _MAT
+
+
+def _mv(t):
+    """slice-level proof text -> Matrix-level: lu is self.data, b is system.v, x is a Vector, n is self.ncols"""
+    t = _re.sub(r'\blu@', 'self.data.v@', t)
+    t = _re.sub(r'(?<![A-Za-z0-9_.])b@', 'system.v@', t)
+    t = _re.sub(r'(?<![A-Za-z0-9_.])x@', 'x.v@', t)
+    t = _re.sub(r'\bn\b', 'self.ncols', t)
+    t = t.replace('x[k] = x[k] / (lu[k * self.ncols + k]);', 'x[k] = x[k] / (self[[k, k]]);')
+    return t
+
+
+MSHP = 'wf(*self) && self.nrows == self.ncols && system.v@.len() == self.ncols'
+
+
+def _mv_loops(loops):
+    out = {}
+    for k, v in loops.items():
+        d = {}
+        for kk, vv in v.items():
+            if kk == 'invariant':
+                d[kk] = [MSHP] + [_mv(x) for x in vv if x not in ('n == b@.len()',)]
+            elif isinstance(vv, str):
+                d[kk] = _mv(vv)
+            else:
+                d[kk] = vv
+        out[k] = d
+    return out
+
+
+MSV = _MAT + '{impl Solve<Vector> for Matrix}::'
+mlu_solve = Fn(MSV + 'lu_solve', ret='x', level='L1', inherent=True, valid='self.nrows == self.ncols && self.nrows == system.v@.len()', panics={1: 'REJECT', 2: 'REJECT'},
+               requires=['C11.mlu_solve.wf:: wf(*self)', 'C11.mlu_solve.pivots:: is_perm32(pivots@, self.nrows as int)'],
+               ensures=['C11.mlu_solve.valid:: self.nrows == self.ncols && self.nrows == system.v@.len()', 'C11.mlu_solve.len:: x.v@.len() == system.v@.len()',
+                        'C11.mlu_solve.equations:: lu_solved(self.data.v@, system.v@.len() as int, pivots@, system.v@, x.v@)'],
+               loops=_mv_loops(lu_solve.loops),
+               hints=[(_mv(a), pos, _mv(txt)) for (a, pos, txt) in lu_solve.hints[1:-1]] +
+                     [('\n                    x\n', 'replace', _mv(lu_solve.hints[-1][2]).replace('\n x\n', '\n x\n'))])
+msolve = Fn(MSV + 'solve', ret='x', level='L1', inherent=True, valid='self.nrows == self.ncols && self.nrows == system.v@.len()',
+            requires=['C01.msolve.wf:: wf(*self)'],
+            ensures=['C01.msolve.valid:: self.nrows == self.ncols && self.nrows == system.v@.len()', 'C01.msolve.len:: x.v@.len() == system.v@.len()',
+                     'C01.msolve.lu_route:: exists|f: Seq<f64>, piv: Seq<i32>| f.len() == self.nrows * self.nrows && is_perm32(piv, self.nrows as int) && bounded(f, self.nrows as int, self.nrows as int) '
+                     '&& factored(self.data.v@, f, piv, self.nrows as int, self.nrows as int) && #[trigger] lu_solved(f, self.nrows as int, piv, system.v@, x.v@)'],
+            hints=[('lu.lu_solve(&piv, system)', 'replace', '({ let x_ = lu.lu_solve(&piv, system); proof { assert(lu_solved(lu.data.v@, self.nrows as int, piv@, system.v@, x_.v@)); } x_ })')])
